@@ -120,16 +120,20 @@ def check_map_encoder(ctx, ty, emit, extras_field, rules=("R-1", "R-2", "R-5", "
         if src is not None and src[0] == "field" and src[2] == "0":
             entry = src[1]
             vt = le["value"]["term"]
-            it = codec_loop_source(entry)
+            it = extras_source(le)
             det = {"iterates": show(it) if it else None, "value": show(vt)[:80]}
             ok = it == ("field", ("param", 0), extras_field) and vt == ("field", entry, "1")
         # ... for EVERY element: an iteration ends in the push or leaves the function; none is skipped, none pushed twice
-        body = dict(f.cfg.loops()).get(le["loop"], set())
-        latches = [p for p in f.cfg.pred[le["loop"]] if p in body]
-        inner = f.cfg.in_loop(le["bb"])
-        from lib.guards import reach_tracking_failures
-        skipping = reach_tracking_failures(f, le["loop"], {le["bb"]}) & set(latches)
-        every = bool(latches) and not skipping and bool(inner) and inner[-1] == le["loop"]
+        if le["loop"] == "seq":
+            # `map.extend(list.into_iter().map(f))`: every element exactly once by construction of the sequence value
+            skipping, every = set(), True
+        else:
+            body = dict(f.cfg.loops()).get(le["loop"], set())
+            latches = [p for p in f.cfg.pred[le["loop"]] if p in body]
+            inner = f.cfg.in_loop(le["bb"])
+            from lib.guards import back_edges_taken
+            skipping = set(back_edges_taken(f, le["loop"], {le["bb"]}, le["loop"])) & set(latches)
+            every = bool(latches) and not skipping and bool(inner) and inner[-1] == le["loop"]
         ctx.ob(R5, "extras-every-element:%s" % ty, every,
                "no element of `%s` is skipped: every iteration of the extras loop that continues has pushed its entry, exactly once" % extras_field,
                where=f.where(le["bb"]), detail={"continues_without_push_from": [f.where(p) for p in sorted(skipping)], "push_block": le["bb"]})
@@ -148,6 +152,18 @@ def check_map_encoder(ctx, ty, emit, extras_field, rules=("R-1", "R-2", "R-5", "
     ctx.ob(R6, "coverage:%s" % ty, sorted(allf) == emitted, "every field of %s is emitted by its encoder" % ty,
            detail={"struct": allf, "emitted": emitted})
     return me
+
+
+def extras_source(le):
+    """the collection whose elements the extras entry `le` of a MapEncoder emits (a loop of pushes, or extend(sequence))"""
+    src = le.get("label_src")
+    if src is None or src[0] != "field":
+        return None
+    if le.get("loop") == "seq":
+        from lib.seq import X
+        from lib.prov import strip_sites
+        return strip_sites(le["seq_src"]) if src[1] == X else None
+    return codec_loop_source(src[1])
 
 
 def codec_loop_source(entry):
